@@ -39,11 +39,11 @@ func (d gsm7Decoder) Transform(dst, src []byte, atEOF bool) (nDst, nSrc int, err
 		nDst = 0
 		err = transform.ErrShortDst
 	} else {
-		decoded := buf.Bytes()
-		if n := len(decoded); n > 2 && (decoded[n-1] == cr || decoded[n-2] == cr) {
+		// a CR in the last of 8k septets is the filler for seven spare bits
+		if n := len(septets); n > 0 && n%8 == 0 && septets[n-1] == cr {
 			nDst--
 		}
-		copy(dst, decoded)
+		copy(dst, buf.Bytes())
 	}
 	return
 }
